@@ -34,14 +34,17 @@ def main():
                 viol = re.findall(r"^VIOLATION property=\S+ replay=\S+ obligation=(\S+)(.*)$", out, re.M)
                 if viol:
                     caught.append(p)
-                    detail[p] = {"obligations": [v[0] for v in viol[:4]], "violations": len(viol),
+                    contract = [v[0] for v in viol if not v[0].startswith("bounded.")]
+                    bounded = [v[0] for v in viol if v[0].startswith("bounded.")]
+                    detail[p] = {"obligations": contract[:4], "bounded_standins": bounded[:3], "violations": len(viol),
+                                 "contract_obligations_failed": len(contract), "bounded_classes_failed": len(bounded),
                                  "failing_input_found": any("no-failing-input-found" not in v[1] for v in viol)}
                 else:
                     missed.append(p)
         meta["caught_by"], meta["missed_by"], meta["detection"] = caught, missed, detail
         json.dump(meta, open(mp, "w"), indent=1)
         sh(f"git -C /repo worktree remove --force {wt}"); shutil.rmtree(sc, ignore_errors=True)
-        print(f"{sid}: caught_by={caught} missed_by={missed} " + "; ".join(f"{p}: {d['obligations'][0]}" for p, d in detail.items()))
+        print(f"{sid}: caught_by={caught} missed_by={missed} " + "; ".join(f"{p}: {(d['obligations'] or ['-'])[0]} | {(d['bounded_standins'] or ['-'])[0]}" for p, d in detail.items()))
         sys.stdout.flush()
 
 main()
